@@ -393,7 +393,8 @@ func ruleNoDisclosure(c *Check, w *World, rule string) {
 // secretBearingArg: an argument (also inside the variadic list) whose type prints the secret when formatted:
 // a URL, its query values, or a module struct with a Secret field.
 func secretBearingArg(ci ssa.CallInstruction) string {
-	bearing := func(t types.Type) string {
+	var bearingD func(t types.Type, depth int) string
+	bearingD = func(t types.Type, depth int) string {
 		s := t.String()
 		for _, n := range []string{"net/url.URL", "net/url.Values", "net/url.Userinfo"} {
 			if strings.HasSuffix(s, n) {
@@ -404,15 +405,20 @@ func secretBearingArg(ci ssa.CallInstruction) string {
 		if p, ok := u.Underlying().(*types.Pointer); ok {
 			u = p.Elem()
 		}
-		if st, ok := u.Underlying().(*types.Struct); ok {
+		if st, ok := u.Underlying().(*types.Struct); ok && depth < 4 {
 			for i := 0; i < st.NumFields(); i++ {
 				if st.Field(i).Name() == "Secret" {
 					return s
+				}
+				// a wrapper struct around a URL (type redactedURL struct{ *url.URL }) prints it when formatted by value
+				if in := bearingD(st.Field(i).Type(), depth+1); in != "" {
+					return s + " (contains " + in + ")"
 				}
 			}
 		}
 		return ""
 	}
+	bearing := func(t types.Type) string { return bearingD(t, 0) }
 	var vals []ssa.Value
 	for _, a := range ci.Common().Args {
 		vals = append(vals, a)
